@@ -445,6 +445,41 @@ def again(route: int, v: int, lo: int, hi: int, lo2: int, hi2: int, same: bool, 
     check('C01.iff', acc == (m == 0), dict(info, ptype='List', acc=acc, mut=m))
 
 
+def nested(how: int, w: int, lo: int, hi: int) -> None:
+    """An assignment made from inside a watcher callback - while a plain set, a param.update, a param.trigger or a batch flush is
+    dispatching - is validated like any other: accepted iff it satisfies the constraints."""
+    from param.parameterized import batch_call_watchers
+    assume(lo <= hi)
+    how = pick(how, 0, 3)
+
+    class P(param.Parameterized):
+        x = param.Integer(default=0)
+        y = param.Integer(default=None, bounds=(lo, hi), allow_None=True)
+    p = P()
+    seen = []
+
+    def cb(event):
+        try:
+            p.y = w
+            seen.append('accepted')
+        except ValueError:
+            seen.append('rejected')
+    p.param.watch(cb, 'x', onlychanged=False)
+    if how == 0:
+        p.x = 1
+    elif how == 1:
+        p.param.update(x=1)
+    elif how == 2:
+        p.param.trigger('x')
+    else:
+        with batch_call_watchers(p):
+            p.x = 1
+    info = {'ptype': 'Integer', 'nested_in': ['set', 'update', 'trigger', 'batch flush'][how], 'two_step': True}
+    check('C01.iff', seen == ['accepted' if lo <= w <= hi else 'rejected'], dict(info, seen=list(seen)))
+    check('C01.readback', p.y == (w if lo <= w <= hi else None), info)
+
+
+nested.ranges = lambda consts: dict(how=(0, 3))
 again.ranges = lambda consts: dict(mut=(0, 2))
 
 
@@ -482,6 +517,8 @@ def shards(tier):
             for kind in range(5):
                 out.append(dict(name='%s_r%d_k%d' % (MISC[ptype], route, kind), module='harness.c01', fn='misc',
                                 consts=dict(ptype=ptype, route=route, kind=kind), budget_s=B))
+    for how in range(4):
+        out.append(dict(name='nested_%d' % how, module='harness.c01', fn='nested', consts=dict(how=how), budget_s=B))
     for route in (0, 1):
         out.append(dict(name='again_r%d' % route, module='harness.c01', fn='again', consts=dict(route=route), budget_s=B))
     return out
